@@ -172,7 +172,7 @@ def run(tier, v):
                 _cli.write_tree(proj, {"src/a.rs": oi_cases[a][1], "src/b.rs": oi_cases[b][1],
                                        "Breadlog.yaml": _cli.config_yaml("./src", structured=(ci % 2 == 1), use_cache=False)})
                 r = _cli.run_breadlog(_os.path.join(proj, "Breadlog.yaml"), check=True, cwd=work, tmpdir=work, timeout=30)
-                rep = _cli.Report(r.stdout)
+                rep = _cli.Report(r.stdout, names=["a.rs", "b.rs"], src=_os.path.join(proj, "src"), err=r.stderr)
                 for name, k in (("a.rs", a), ("b.rs", b)):
                     want = sum(1 for e in oi_exp[k] if e[0] == "N" or (e[0] == "S" and e[2] is None))
                     got = sum(1 for f, _, _ in rep.missing if _os.path.basename(f) == name)
